@@ -2,7 +2,12 @@
 the proposed repairs D01 (`raiseEvent` iterates a copy of the handler list) and D28 (`removeListener(eid, eventType)`
 reads the list before using it).
 
-One event source.  Event types, handler identities, subscription ids (eids) and owners of weak handlers are `Nat`s.
+Any number of event sources (`M.srcs`), sharing the global event-id counter; handlers subscribed on one source may
+subscribe, unsubscribe and raise on any other.  Event types, handler identities, subscription ids (eids) and owners of
+weak handlers are `Nat`s.  An event type is an opaque identity: the code keys `_eventMixin_events` and
+`_eventMixin_handlers` by the class object itself (`eventType not in self._eventMixin_events`, `event.__class__`), so a
+subclass of a declared event class is simply another, undeclared type, and a declared subclass of an undeclared base
+does not make the base declared.  The harness realises the numbers as a class hierarchy (Ev3(Ev0), Ev4(Ev2), Ev5(Ev3)).
 
 | model                          | Python (revent.py)                                                               |
 |--------------------------------|----------------------------------------------------------------------------------|
@@ -23,14 +28,19 @@ delivery frames, run structurally on fuel (`run`).  Handler behaviour is a param
 the actions the handler performs (each either *guarded* = the handler catches its exception, or not) and what it
 returns / raises.  Partial Python operations stay partial: every action yields `Res.ok v` or `Res.exc k`.
 
-Not modelled (assumptions of C05): handlers assigning `event.halt` themselves, `Event._invoke` overrides, non-`Event`
+`event.halt` is modelled (`Frame.halt`, `Script.halt`): a handler may assign it; the loop looks at it only after a
+handler that returned something other than `None` (299 `continue` skips the test at 315).  Lazy initialisation is
+modelled (`Src.inited`: the instance attribute `_eventMixin_handlers` exists): every entry point but
+`_eventMixin_get_listener_count` creates it; the counter raises `AttributeError` without it.
+
+Not modelled (assumptions of C05): raising the same event *instance* twice, `Event._invoke` overrides, non-`Event`
 arguments to `raiseEvent`, an exception hook that itself raises, two declared event classes with the same `__name__`,
 and garbage collection of an owner while one of its handlers is in an in-flight snapshot.  Core only. -/
 namespace Pox.Revent
 
-/-- exception classes the code can produce: `ReventError`, `KeyError`, anything else (scripted handler exceptions,
+/-- exception classes the code can produce: `ReventError`, `KeyError`, `AttributeError`, anything else (scripted handler exceptions,
     `TypeError` of `autoBindEvents` on `_eventMixin_events = True`) -/
-inductive Exc | revent | key | other
+inductive Exc | revent | key | attr | other
   deriving DecidableEq, Repr
 
 /-- what a handler returns, classified exactly as `raiseEvent` 299-316 looks at it: `None`, `False`, `True`, a tuple of
@@ -57,8 +67,9 @@ def Ret.isExc : Ret → Bool
   | .exc _ => true
   | _ => false
 
-/-- delivery does not go on to the next handler after this return -/
-def Ret.stops (r : Ret) : Bool := r.halts || r.isExc
+/-- delivery does not go on to the next handler after a handler answered `r` with `event.halt = h` at that moment:
+    an exception, a halting return value, or any return value other than `None` while `event.halt` is set (299-316) -/
+def stopsAt (r : Ret) (h : Bool) : Bool := r.isExc || r.halts || (r != .none && h)
 
 /-- `(priority, handler, once, eid)`; `weak = some o`: the handler is a `CallProxy` for a method of owner `o` -/
 structure Entry where
@@ -97,11 +108,14 @@ structure Src where
   handlers : Nat → Option (List Entry)      -- the dict; `none` = key absent
   keys : List Nat                           -- its keys (insertion order)
   prioritized : List Nat
-  nextEid : Nat                             -- `_nextEventID` (last id handed out)
+  nextEid : Nat                             -- the global `_nextEventID` (last id handed out), kept equal in all sources
+  inited : Bool                             -- the instance attribute `_eventMixin_handlers` exists
 
-def Src.init (declared : List Nat) (acceptAll : Bool) : Src :=
-  { declared, acceptAll, handlers := fun _ => none, keys := [], prioritized := [], nextEid := 0 }
+/-- `lazy`: the subclass never ran `EventMixin.__init__` -/
+def Src.init (declared : List Nat) (acceptAll : Bool) (lazy : Bool := false) : Src :=
+  { declared, acceptAll, handlers := fun _ => none, keys := [], prioritized := [], nextEid := 0, inited := !lazy }
 
+/-- exact identity of the event type, nothing else (285-286, 440-441) -/
 def Src.isDeclared (s : Src) (et : Nat) : Bool := s.acceptAll || s.declared.contains et
 
 /-- the handlers subscribed to `et` right now: `self._eventMixin_handlers.get(eventType, [])` (292) -/
@@ -109,6 +123,9 @@ def Src.subscribers (s : Src) (et : Nat) : List Entry :=
   match s.handlers et with
   | some l => l
   | none => []
+
+/-- `_eventMixin_init()` (221-229) -/
+def Src.touch (s : Src) : Src := { s with inited := true }
 
 /-- insert `x`, which stood before every element of the (sorted) list, keeping the sort stable and descending -/
 def ins (x : Entry) : List Entry → List Entry
@@ -118,7 +135,7 @@ def ins (x : Entry) : List Entry → List Entry
 /-- stable sort by priority, descending (insertion sort from the right) -/
 def sortDesc (l : List Entry) : List Entry := l.foldr ins []
 
-/-- `addListener` 456-476 -/
+/-- `addListener` 439, 456-476 -/
 def addCore (s : Src) (et hid : Nat) (prio : Int) (once : Bool) (weak : Option Nat) : Src × (Nat × Nat) :=
   let eid := s.nextEid + 1
   let e : Entry := ⟨prio, hid, once, eid, weak⟩
@@ -130,7 +147,7 @@ def addCore (s : Src) (et hid : Nat) (prio : Int) (once : Bool) (weak : Option N
   ({ s with handlers := fun k => if k = et then some l else s.handlers k,
             keys := keys,
             prioritized := if pr && !s.prioritized.contains et then et :: s.prioritized else s.prioritized,
-            nextEid := eid }, (et, eid))
+            nextEid := eid, inited := true }, (et, eid))
 
 /-- `autoBindEvents`: one `addListener` per `_handle_<Event>` method of the sink whose event the source declares, in
     `dir()` order (`ets` is given in that order); the handler for event `et` has identity `hidBase + et` -/
@@ -165,41 +182,48 @@ def matchOwner (o : Nat) (e : Entry) : Bool := e.weak == some o
 
 def Src.count (s : Src) : Nat := (s.keys.map fun k => (s.subscribers k).length).sum
 
-/-- every action except `raise` -/
+/-- one action on one source.  `raise` stands for what `raiseEvent` does to the source state itself (260-261). -/
 def doAction (s : Src) : Action → Src × Res
   | .add et hid prio once weak =>
     if s.isDeclared et then
       let r := addCore s et hid prio once weak
       (r.1, .ok (.pair r.2.1 r.2.2))
-    else (s, .exc .revent)
+    else (s.touch, .exc .revent)                       -- 439 runs before the check
   | .bind ets hidBase prio weak =>
-    if s.acceptAll then (s, .exc .other)
+    if s.acceptAll then (s, .exc .other)               -- `for e in True`: TypeError
     else
       let r := bindAll s hidBase prio weak ets
       (r.1, .ok (.pairs r.2))
-  | .rmHandler hid et => removeWhere s (matchHandler hid) et
-  | .rmEid eid et => removeWhere s (matchEid eid) et
+  | .rmHandler hid et => removeWhere s.touch (matchHandler hid) et          -- 340 runs first
+  | .rmEid eid et => removeWhere s.touch (matchEid eid) et
   | .rmPair et eid et' =>
-    removeWhere s (matchEid eid) (some (match et' with | some t => t | none => et))
-  | .clear => ({ s with handlers := fun _ => none, keys := [] }, .ok .unit)
+    removeWhere s.touch (matchEid eid) (some (match et' with | some t => t | none => et))
+  | .clear => ({ s with handlers := fun _ => none, keys := [], inited := true }, .ok .unit)
   | .dropOwner o => ((removeWhere s (matchOwner o) none).1, .ok .unit)
-  | .count => (s, .ok (.nat s.count))
-  | .raise _ _ _ => (s, .ok .unit)          -- never used: `exec` handles `raise`
+  | .count => if s.inited then (s, .ok (.nat s.count)) else (s, .exc .attr)
+  | .raise _ _ _ => (s.touch, .ok .unit)
 
 /-- `self.removeListener(eid)` as the dispatch loop calls it (298, 301, 307) -/
 def rmEidAll (s : Src) (eid : Nat) : Src := (removeWhere s (matchEid eid) none).1
 
-/-- what a handler does when invoked: actions (with "the handler catches this action's exception" flags), then its
-    return value or exception -/
+/-- an action together with the source it is performed on -/
+structure SAct where
+  src : Nat
+  act : Action
+  deriving DecidableEq, Repr
+
+/-- what a handler does when invoked: first it may assign `event.halt`, then its actions (with "the handler catches
+    this action's exception" flags), then its return value or exception -/
 structure Script where
-  acts : List (Action × Bool)
+  halt : Option Bool
+  acts : List (SAct × Bool)
   ret : Ret
 
 /-- observable events, in order -/
 inductive Ev
-  | begin (fid et : Nat) (snap : List Entry)       -- a delivery starts; `snap` = the copy of the handler list it iterates
-  | call (fid : Nat) (e : Entry)                   -- handler invoked for delivery `fid`
-  | ret (fid : Nat) (e : Entry) (r : Ret)          -- ... and returned / raised
+  | begin (fid src et : Nat) (snap : List Entry)   -- a delivery starts on source `src`; `snap` = the copy of the handler list it iterates
+  | call (fid src : Nat) (e : Entry)               -- handler invoked for delivery `fid` (which runs on source `src`)
+  | ret (fid : Nat) (e : Entry) (r : Ret) (h : Bool)   -- ... and returned / raised; `h` = `event.halt` at that moment
   | endf (fid : Nat) (noErr : Bool) (r : Res)      -- `raiseEvent`/`raiseEventNoErrors` of delivery `fid` returns / raises
   | res (r : Res)                                  -- result of an action, as seen by whoever performed it
   deriving DecidableEq, Repr
@@ -210,24 +234,34 @@ abbrev Beh := Nat → List Ev → Script
 /-- an in-flight `raiseEvent` call -/
 structure Frame where
   fid : Nat
+  src : Nat                    -- the source it was raised on
   et : Nat
   noErr : Bool                 -- entered through `raiseEventNoErrors`
   guarded : Bool               -- the caller catches an exception of this raise
   snap : List Entry            -- the snapshot taken at 292 (never changes)
   rest : List Entry            -- the part of it the `for` loop has not reached yet
-  cur : Option (Entry × List (Action × Bool) × Ret)   -- the handler now running: its entry, remaining actions, return
+  halt : Bool                  -- `event.halt`
+  cur : Option (Entry × List (SAct × Bool) × Ret)   -- the handler now running: its entry, remaining actions, return
   deriving DecidableEq
 
+/-- all sources; the event-id counter is global: when source `i` becomes `s`, every other source sees its counter -/
+def setSrc (srcs : Nat → Src) (i : Nat) (s : Src) : Nat → Src :=
+  fun j => if j = i then s else { srcs j with nextEid := s.nextEid }
+
+/-- replace one source, counter untouched -/
+def updSrc (srcs : Nat → Src) (i : Nat) (s : Src) : Nat → Src :=
+  fun j => if j = i then s else srcs j
+
 structure M where
-  src : Src
+  srcs : Nat → Src
   stack : List Frame           -- innermost delivery first
-  todo : List Action           -- top-level operations still to perform
+  todo : List SAct             -- top-level operations still to perform
   pend : Option (Res × Bool)   -- a result on its way to the innermost running handler (or to top level); guarded?
   log : List Ev
   nextFid : Nat
 
-def M.init (s : Src) (ops : List Action) : M :=
-  { src := s, stack := [], todo := ops, pend := none, log := [], nextFid := 0 }
+def M.init (srcs : Nat → Src) (ops : List SAct) : M :=
+  { srcs := srcs, stack := [], todo := ops, pend := none, log := [], nextFid := 0 }
 
 /-- the loop of delivery `fr` ends normally: `break` (`halt`) or exhaustion; 317 `return event` -/
 def finish (m : M) (fr : Frame) (st : List Frame) (halt : Bool) : M :=
@@ -239,42 +273,50 @@ def finish (m : M) (fr : Frame) (st : List Frame) (halt : Bool) : M :=
 def abort (m : M) (fr : Frame) (st : List Frame) (k : Exc) : M :=
   let r : Res := if fr.noErr && k != .revent then .ok .none else .exc k
   let lg : List Ev := match fr.cur with
-    | some (e, _, _) => [.ret fr.fid e (.exc k)]
+    | some (e, _, _) => [.ret fr.fid e (.exc k) fr.halt]
     | none => []
   { m with stack := st, pend := some (r, fr.guarded), log := m.log ++ lg ++ [.endf fr.fid fr.noErr r] }
 
 /-- the running handler `e` of `fr` returns `r` (not an exception): 298-316 -/
 def hret (m : M) (fr : Frame) (st : List Frame) (e : Entry) (r : Ret) : M :=
-  let s1 := if e.once then rmEidAll m.src e.eid else m.src
+  let s0 := m.srcs fr.src
+  let s1 := if e.once then rmEidAll s0 e.eid else s0
   let s2 := if r.removes then rmEidAll s1 e.eid else s1
-  let m' := { m with src := s2, log := m.log ++ [.ret fr.fid e r] }
-  if r.halts then finish m' fr st true
+  let m' := { m with srcs := updSrc m.srcs fr.src s2, log := m.log ++ [.ret fr.fid e r fr.halt] }
+  if stopsAt r fr.halt then finish m' fr st true       -- every `break` is taken with `event.halt == True`
   else { m' with stack := { fr with cur := none } :: st }
 
 /-- 292: take the snapshot and enter the loop.  `f` identifies the `raiseEvent*` call. -/
-def push (m : M) (f et : Nat) (noErr g : Bool) : M :=
-  let snap := m.src.subscribers et
-  { m with stack := { fid := f, et, noErr, guarded := g, snap, rest := snap, cur := none } :: m.stack,
-           log := m.log ++ [.begin f et snap] }
+def push (m : M) (f i et : Nat) (noErr g : Bool) : M :=
+  let snap := (m.srcs i).subscribers et
+  { m with stack := { fid := f, src := i, et, noErr, guarded := g, snap, rest := snap, halt := false, cur := none } :: m.stack,
+           log := m.log ++ [.begin f i et snap] }
+
+/-- one action of the innermost running handler (or of top level) on the sources: collecting an owner concerns every
+    source; everything else one source, and the others see the event-id counter move -/
+def doActionM (srcs : Nat → Src) (i : Nat) (a : Action) : (Nat → Src) × Res :=
+  match a with
+  | .dropOwner o => (fun j => (doAction (srcs j) (.dropOwner o)).1, .ok .unit)
+  | a => let r := doAction (srcs i) a; (setSrc srcs i r.1, r.2)
 
 /-- perform one action on behalf of the innermost running handler (or of top level) -/
-def exec (m : M) (a : Action) (g : Bool) : M :=
-  match a with
+def exec (m : M) (sa : SAct) (g : Bool) : M :=
+  match sa.act with
   | .raise et form noErr =>
-    -- every `raiseEvent*` call gets the next id, whether or not it gets as far as the dispatch loop
-    let m1 : M := { m with nextFid := m.nextFid + 1 }
-    let start : M := if m.src.isDeclared et then push m1 m.nextFid et noErr g
+    -- every `raiseEvent*` call gets the next id, whether or not it gets as far as the dispatch loop; 260: lazy init
+    let m1 : M := { m with nextFid := m.nextFid + 1, srcs := updSrc m.srcs sa.src (m.srcs sa.src).touch }
+    let start : M := if (m.srcs sa.src).isDeclared et then push m1 m.nextFid sa.src et noErr g
                      else { m1 with pend := some (.exc .revent, g) }        -- 285-288
     match form with
     | .inst => start
     | .cls =>
-      match m.src.handlers et with              -- 269-272 early-out: no event object is created
+      match (m.srcs sa.src).handlers et with              -- 269-272 early-out: no event object is created
       | none => { m1 with pend := some (.ok .none, g) }
       | some [] => { m1 with pend := some (.ok .none, g) }
       | some (_ :: _) => start
   | a =>
-    let r := doAction m.src a
-    { m with src := r.1, pend := some (r.2, g) }
+    let r := doActionM m.srcs sa.src a
+    { m with srcs := r.1, pend := some (r.2, g) }
 
 def step (β : Beh) (m : M) : M :=
   match m.pend with
@@ -296,11 +338,12 @@ def step (β : Beh) (m : M) : M :=
       | some (e, [], r) => hret m fr st e r
       | none =>
         match fr.rest with
-        | [] => finish m fr st false
+        | [] => finish m fr st fr.halt
         | e :: rest =>
           let sc := β e.hid m.log
-          { m with log := m.log ++ [.call fr.fid e],
-                   stack := { fr with rest := rest, cur := some (e, sc.acts, sc.ret) } :: st }
+          { m with log := m.log ++ [.call fr.fid fr.src e],
+                   stack := { fr with rest := rest, cur := some (e, sc.acts, sc.ret),
+                                      halt := match sc.halt with | some b => b | none => fr.halt } :: st }
 
 def run (β : Beh) : Nat → M → M
   | 0, m => m
@@ -311,13 +354,13 @@ def M.finished (m : M) : Bool := m.pend.isNone && m.stack.isEmpty && m.todo.isEm
 /-- handlers invoked for delivery `f`, in order -/
 def callsOf (f : Nat) : List Ev → List Entry
   | [] => []
-  | .call f' e :: l => if f' = f then e :: callsOf f l else callsOf f l
+  | .call f' _ e :: l => if f' = f then e :: callsOf f l else callsOf f l
   | _ :: l => callsOf f l
 
-/-- handlers of delivery `f` that have returned / raised, with what -/
-def retsOf (f : Nat) : List Ev → List (Entry × Ret)
+/-- handlers of delivery `f` that have returned / raised, with what, and `event.halt` at that moment -/
+def retsOf (f : Nat) : List Ev → List (Entry × Ret × Bool)
   | [] => []
-  | .ret f' e r :: l => if f' = f then (e, r) :: retsOf f l else retsOf f l
+  | .ret f' e r h :: l => if f' = f then (e, r, h) :: retsOf f l else retsOf f l
   | _ :: l => retsOf f l
 
 end Pox.Revent
